@@ -13,6 +13,7 @@
 //   res  vt s w h dw dh a b c d e f resample_pixels(src w*h, dst dw*dh, matrix3x2<double>(a/8,..,f/8), s = b|n): all dst channel values row-major
 //                                   (dst pre-filled with 7), then `|`, then the same from a direct loop  sample(s, src, transform(m, (x,y)), dst(x,y))
 //   resf vt s w h dw dh a..f (bits)  the same with an arbitrary matrix3x2<double> given as six bit patterns (sample points off the grid)
+//   resg vt s w h dw dh a..f (bits)  the same with a matrix3x2<float> given as six binary32 bit patterns (sample points are point<float>)
 //   rsz  vt s w h dw dh             resize_view(src, dst): all dst channel values
 //   mmul a.. (12 doubles as bits)   matrix product: 6 bit patterns
 //   minv a.. (6 bits)               inverse: 6 bit patterns
@@ -150,6 +151,20 @@ std::string res(ptrdiff_t w, ptrdiff_t h, ptrdiff_t dw, ptrdiff_t dh, double con
     return dump(gil::const_view(d1)) + " | " + dump(gil::const_view(d2));
 }
 template <typename Src, typename Sampler>
+std::string resg(ptrdiff_t w, ptrdiff_t h, ptrdiff_t dw, ptrdiff_t dh, float const* m) {
+    Src s(w, h);
+    using pixel_t = typename Src::pixel_t;
+    using img_t = gil::image<pixel_t, false>;
+    gil::matrix3x2<float> mat(m[0], m[1], m[2], m[3], m[4], m[5]);
+    img_t d1(dw, dh), d2(dw, dh);
+    gil::fill_pixels(gil::view(d1), sentinel<pixel_t>()); gil::fill_pixels(gil::view(d2), sentinel<pixel_t>());
+    gil::resample_pixels(s.v, gil::view(d1), mat, Sampler{});
+    auto v2 = gil::view(d2);
+    for (ptrdiff_t y = 0; y < dh; ++y) for (ptrdiff_t x = 0; x < dw; ++x)
+        gil::sample(Sampler{}, s.v, gil::transform(mat, gil::point_t(x, y)), v2(x, y));
+    return dump(gil::const_view(d1)) + " | " + dump(gil::const_view(d2));
+}
+template <typename Src, typename Sampler>
 std::string rsz(ptrdiff_t w, ptrdiff_t h, ptrdiff_t dw, ptrdiff_t dh) {
     Src s(w, h);
     using pixel_t = typename Src::pixel_t;
@@ -167,36 +182,57 @@ static std::string show_m(gil::matrix3x2<double> const& m) {
 #define SRCS(X) X("g8", plain<gil::gray8_image_t>) X("rgb8", plain<gil::rgb8_image_t>) X("rgb8p", plain<gil::rgb8_planar_image_t>) \
   X("g16", plain<gil::gray16_image_t>) X("g8s", plain<gil::gray8s_image_t>) X("g32f", plain<gil::gray32f_image_t>) X("sub", subs) X("trn", trns)
 
-// every op runs in a forked child: a sanitizer abort or a failed BOOST_ASSERT inside GIL becomes the observation
-// `crash:<how>` of that op and the harness carries on (mutants that read outside abort on thousands of ops)
-template <typename H> static std::string guarded(H handle, std::string const& line) {
-    int fd[2];
-    if (pipe(fd) != 0) return handle(line);
-    fflush(stdout); fflush(stderr);
-    pid_t pid = fork();
-    if (pid < 0) { close(fd[0]); close(fd[1]); return handle(line); }
-    if (pid == 0) {
-        close(fd[0]);
-        std::string out;
-        try { out = handle(line); } catch (...) { out = "err:exception"; }
-        size_t off = 0;
-        while (off < out.size()) { ssize_t k = write(fd[1], out.data() + off, out.size() - off); if (k <= 0) break; off += (size_t)k; }
-        close(fd[1]);
-        _exit(0);
-    }
-    close(fd[1]);
-    std::string out; char buf[65536]; ssize_t k;
-    while ((k = read(fd[0], buf, sizeof buf)) > 0) out.append(buf, (size_t)k);
-    close(fd[0]);
-    int st = 0; waitpid(pid, &st, 0);
-    if (WIFEXITED(st) && WEXITSTATUS(st) == 0) return out;
+// Ops run in forked children, a chunk of ops per child: a sanitizer abort or a failed BOOST_ASSERT inside GIL ends the child,
+// the op it died on gets the observation `crash:<how>` and a new child continues with the next op
+// (mutants that read outside abort on thousands of ops; one fork per op under ASan is slow).
+static std::string handle_op(std::string const& line);
+
+static std::string how_died(int st) {
     if (WIFSIGNALED(st)) return "crash:signal-" + std::to_string(WTERMSIG(st)) + (WTERMSIG(st) == SIGABRT ? "-abort(assertion)" : "");
     return "crash:exit-" + std::to_string(WEXITSTATUS(st)) + (WEXITSTATUS(st) == 86 ? "-AddressSanitizer" : WEXITSTATUS(st) == 87 ? "-UBSan" : "");
 }
 
-static std::string handle_op(std::string const& line);
 int main() {
-    return hv::run([](std::string const& line) -> std::string { return guarded(handle_op, line); });
+    std::vector<std::string> lines; std::string line;
+    while (std::getline(std::cin, line)) lines.push_back(line);
+    const size_t CHUNK = 64;
+    size_t i = 0, crashes = 0;
+    while (i < lines.size()) {
+        if (crashes >= 300) { std::puts("harness-gave-up-after-300-aborted-ops"); ++i; continue; }   // each abort costs a sanitizer report
+        size_t end = std::min(lines.size(), i + CHUNK);
+        int fd[2];
+        if (pipe(fd) != 0) return 3;
+        fflush(stdout); fflush(stderr);
+        pid_t pid = fork();
+        if (pid < 0) return 3;
+        if (pid == 0) {
+            close(fd[0]);
+            for (size_t k = i; k < end; ++k) {
+                std::string out;
+                try { out = handle_op(lines[k]); } catch (...) { out = "err:exception"; }
+                out += '\n';
+                size_t off = 0;
+                while (off < out.size()) { ssize_t n = write(fd[1], out.data() + off, out.size() - off); if (n <= 0) _exit(4); off += (size_t)n; }
+            }
+            close(fd[1]);
+            _exit(0);
+        }
+        close(fd[1]);
+        std::string got; char buf[65536]; ssize_t n;
+        while ((n = read(fd[0], buf, sizeof buf)) > 0) got.append(buf, (size_t)n);
+        close(fd[0]);
+        int st = 0; waitpid(pid, &st, 0);
+        // complete lines only
+        size_t done = 0, pos = 0, nl;
+        while ((nl = got.find('\n', pos)) != std::string::npos && i + done < end) {
+            std::fwrite(got.data() + pos, 1, nl - pos + 1, stdout); pos = nl + 1; ++done;
+        }
+        i += done;
+        if (i < end && !(WIFEXITED(st) && WEXITSTATUS(st) == 0)) { std::puts(how_died(st).c_str()); ++i; ++crashes; }
+        else if (i < end) { std::puts("harness-protocol-error"); ++i; }
+        fflush(stdout);
+    }
+    return 0;
 }
 static std::string handle_op(std::string const& line) {
     {
@@ -236,6 +272,13 @@ static std::string handle_op(std::string const& line) {
             double m[6]; for (int k = 0; k < 6; ++k) m[k] = d_of(w[7 + k]);
 #define X(name, S) if (w[1] == name) { if (w[2] == "b") return res<S, gil::bilinear_sampler>(I(3), I(4), I(5), I(6), m); \
                                        return res<S, gil::nearest_neighbor_sampler>(I(3), I(4), I(5), I(6), m); }
+            SRCS(X)
+#undef X
+        }
+        if (w.size() == 13 && w[0] == "resg") {
+            float m[6]; for (int k = 0; k < 6; ++k) { uint32_t u = (uint32_t)hv::to_ull(w[7 + k]); std::memcpy(&m[k], &u, 4); }
+#define X(name, S) if (w[1] == name) { if (w[2] == "b") return resg<S, gil::bilinear_sampler>(I(3), I(4), I(5), I(6), m); \
+                                       return resg<S, gil::nearest_neighbor_sampler>(I(3), I(4), I(5), I(6), m); }
             SRCS(X)
 #undef X
         }
